@@ -750,7 +750,7 @@ func c09R3Remove(c *Ctx, R3 string) {
 			// … or the set became empty according to a helper of the package that
 			// returns true only when len(predecessors[key]) == 0
 			te, _ := c09BoolCallEdges(f, func(call *ssa.Call, g *ssa.Function) (int, bool) {
-				if g.Signature.Results().Len() == 0 || fnPkgPath(g) != fnPkgPath(f) {
+				if g.Signature.Results().Len() == 0 || !inModule(g) {
 					return 0, false
 				}
 				for i, a := range call.Call.Args {
@@ -761,7 +761,15 @@ func c09R3Remove(c *Ctx, R3 string) {
 					sets := map[ssa.Value]bool{}
 					AllInstrs(g, func(in ssa.Instruction) {
 						lk, ok := in.(*ssa.Lookup)
-						if !ok || !c09IsLoadOfField(lk.X, mem, "predecessors") {
+						if !ok {
+							return
+						}
+						// m.predecessors itself, or the map parameter of a generic helper that receives it
+						isPred := c09IsLoadOfField(lk.X, mem, "predecessors")
+						if pf, mi := c09ParamOf(lk.X); !isPred && pf == g && mi < len(call.Call.Args) && c09IsLoadOfField(call.Call.Args[mi], mem, "predecessors") {
+							isPred = true
+						}
+						if !isPred {
 							return
 						}
 						if pf, pi := c09ParamOf(lk.Index); pf != g || pi != i {
